@@ -446,11 +446,18 @@ class Program:
         self.consts = {}
         self.source_files = []
         self.features = {}
+        loaded = []
         for fn in sorted(os.listdir(fact_dir)):
             if not fn.endswith(".json"):
                 continue
             with open(os.path.join(fact_dir, fn)) as f:
-                d = json.load(f)
+                loaded.append(json.load(f))
+        # private items that were merely renamed get their reference names back (see canon.py); what was renamed is reported
+        self.renamed = []
+        if os.environ.get("VERIF_NO_CANON") != "1":
+            import canon
+            self.renamed = canon.canonicalise(loaded)
+        for d in loaded:
             cname = d["crate"]
             if crates is not None and cname not in crates:
                 continue
